@@ -193,7 +193,7 @@ class HistHarness(symex.Harness):
                 for _, r in df.iterrows():
                     rows.append((r["index"], r["result"], r["inference_timed_out"], r["preprocessing_timed_out"], r["query"]))
                 out.append(("rows", rows))
-            return ("hist", out, fake.leftover(), list(fake.hung))
+            return ("hist", out, fake.leftover(), list(fake.hung), list(eng.notes.get("giveups", [])))
         finally:
             inf_mod.mp = real_mp
             l2.deactivate()
@@ -310,7 +310,7 @@ class HistHarness(symex.Harness):
     def _viol(self, eng, model, res, msg):
         m = model or eng.vc(Z.BoolVal(True))
         if m is not None and len(self.viol) < 20:
-            self.viol.append(dict(res=["hist", msg, _plain(res[1:2])], hung=(list(res[3]) if len(res) > 3 else []), vars={str(v): concretise.model_int(m, v) for v in self.sb.vars}))
+            self.viol.append(dict(res=["hist", msg, _plain(res[1:2])], hung=(list(res[3]) if len(res) > 3 else []), giveups=(list(res[4]) if len(res) > 4 else []), vars={str(v): concretise.model_int(m, v) for v in self.sb.vars}))
 
     # replay: the same history on the real stack (sequential or with real processes)
     def replay(self, cand):
@@ -331,6 +331,8 @@ class HistHarness(symex.Harness):
             if self.parallel:
                 kw["multi_inference"] = True
             st = {"op": "inference", "mgr": "m", "queries": ql, "kw": kw}
+            if any(cand.get("giveups", [])) and ci == 0:
+                st["giveup_at"] = list(cand["giveups"]).index(True)
             if self.may_hang:
                 flags = list(cand.get("hung", []))
                 off = sum(len(c) for c in self.history[:ci])
@@ -398,3 +400,76 @@ def _plain(x):
     if isinstance(x, (bool, int, float, str, type(None))):
         return x
     return str(x)
+
+
+# -- time budgets (C14) ----------------------------------------------------------------------
+class FakeClock:
+    """Schedule-driven clock for perf_counter / perf_counter_ns as seen by the repository:
+    time stands still except at <= `jumps` jump events; whether a given read is a jump event
+    and how far it jumps (past a per-query budget / past everything) are free decisions."""
+
+    SIZES = (1.5, 7.0, 10000.0)
+
+    def __init__(self, jumps):
+        self.now = 100.0
+        self.left = jumps
+        self.reads = 0
+
+    def tick(self):
+        self.reads += 1
+        if self.left > 0 and symex.ENG is not None:
+            if symex.sym_truth(symex.ENG.fresh("jump")):
+                self.left -= 1
+                size = self.SIZES[-1]
+                for sz in self.SIZES[:-1]:
+                    if symex.sym_truth(symex.ENG.fresh("size")):
+                        size = sz
+                        break
+                self.now += size
+
+    def perf_counter(self):
+        self.tick()
+        return self.now
+
+    def perf_counter_ns(self):
+        self.tick()
+        return int(self.now * 1e9)
+
+
+class BudgetHarness(HistHarness):
+    """history[ci] runs with budgets[ci] = dict(total_timeout=..., preprocessing_timeout=...,
+    inference_timeout=...) (empty dict = no budget)."""
+
+    def __init__(self, *a, budgets=None, jumps=1, give_up=False, **kw):
+        self.budgets = budgets or []
+        self.jumps = jumps
+        self.give_up = give_up
+        super().__init__(*a, **kw)
+        self.label += " budgets=%s jumps<=%d%s" % (self.budgets, jumps, " solver-may-give-up" if give_up else "")
+
+    def call_kw(self, ci):
+        return dict(self.budgets[ci]) if ci < len(self.budgets) else {}
+
+    def flag_allowed(self, ci):
+        return True
+
+    def prepare(self, eng):
+        import inference.deadline as dl
+        import inference.inference as inf
+        import inference.c_inference as ci
+        import inference.tseitin_transformation as tsm
+        clock = FakeClock(self.jumps)
+        self._saved = [(dl, "perf_counter", dl.perf_counter), (inf, "perf_counter_ns", inf.perf_counter_ns),
+                       (ci, "perf_counter_ns", ci.perf_counter_ns), (tsm, "perf_counter_ns", tsm.perf_counter_ns)]
+        dl.perf_counter = clock.perf_counter
+        inf.perf_counter_ns = clock.perf_counter_ns
+        ci.perf_counter_ns = clock.perf_counter_ns
+        tsm.perf_counter_ns = clock.perf_counter_ns
+        self._clock = clock
+        if self.give_up:
+            eng.notes["solver_may_give_up"] = True
+
+    def cleanup(self):
+        for mod, name, val in getattr(self, "_saved", []):
+            setattr(mod, name, val)
+        self._saved = []
